@@ -627,7 +627,8 @@ def check_evaluate(ctx, repo, out, x_given, callsig):
         out.check(scen, "predict" in ev.must, "R3", "evaluate:order:predict<score", "score follows predict", "score can precede predict", L(ev))
     for ev in appends:
         okf, wit = fitted_before(ev)
-        out.check(scen, None if okf is None else ("score" in ev.must and "predict" in ev.must and okf), "R3", "evaluate:order:score<append",
+        out.check(scen, None if (okf is None or not scores or not preds) else ("score" in ev.must and "predict" in ev.must and okf), "R3",
+                  "evaluate:order:score<append",
                   "row is appended after fit/update, predict and score", "a row can be appended before the fold was fitted, predicted and scored", L(ev))
     if not appends:
         out.add(scen, "undecided", "R3", "evaluate:append", "no row is appended to a loop-carried table in the fold loop", loc0)
@@ -671,7 +672,7 @@ def check_evaluate(ctx, repo, out, x_given, callsig):
 
         # score
         sc = [(k, v) for k, v in items if any(v == s.term for s in scores)]
-        out.check(scen, len(sc) == 1, "R3", "evaluate:row:score", "row holds the value returned by the metric call",
+        out.check(scen, None if not scores else len(sc) == 1, "R3", "evaluate:row:score", "row holds the value returned by the metric call",
                   "row does not hold the value returned by the metric call (entries: %d)" % len(sc), L(ev))
         for k, v in sc:
             want_parts = None
@@ -860,19 +861,23 @@ def check_scoring_validator(ctx, repo, callsig):
     default_terms = []
     try:
         for none_, call_ in ((True, False), (False, False), (False, True)):
-            val = {is_none: none_, callable_: call_, T("cmp", "Eq", p, NONE): none_}
-            rets = [t for st, t in r.returns if pc_holds(st.pc, val)]
-            rais = [t for st, t in r.raises if pc_holds(st.pc, val)]
-            if none_:
-                ok = len(rets) == 1 and not rais and is_call(rets[0]) and rets[0].a[0].op == "fn"
-                if ok:
-                    default_terms.append(rets[0])
-            elif not call_:
-                ok = not rets and len(rais) == 1
-            else:
-                ok = rets == [p] and not rais
-            if not ok and bad is None:
-                bad = (none_, call_, [show(x) for x in rets], len(rais))
+            val0 = {is_none: none_, callable_: call_, T("cmp", "Eq", p, NONE): none_}
+            pcs = [st.pc for st, _ in r.returns] + [st.pc for st, _ in r.raises]
+            # any further condition in the validator is an opaque atom: the table must hold for both of its values
+            for val, free in valuations(pcs, val0):
+                rets = [t for st, t in r.returns if pc_holds(st.pc, val)]
+                rais = [t for st, t in r.raises if pc_holds(st.pc, val)]
+                if none_:
+                    ok = len(rets) == 1 and not rais and is_call(rets[0]) and rets[0].a[0].op == "fn"
+                    if ok and rets[0] not in default_terms:
+                        default_terms.append(rets[0])
+                elif not call_:
+                    ok = not rets and len(rais) == 1
+                else:
+                    ok = rets == [p] and not rais
+                if not ok and bad is None:
+                    extra = "".join(" [%s=%s]" % (show(a)[:60], v) for a, v in free)
+                    bad = (none_, str(call_) + extra, [show(x)[:120] for x in rets], len(rais))
     except Undef as u:
         ctx.undecided("R4", "check_scoring:table", "condition not evaluable: %s" % show(u.args[0] if u.args else "?"), loc)
         return
